@@ -540,6 +540,13 @@ def main(argv=None):
             wire.append(sx([tag] + args))
             checks.append(("timeslot", f"Timeslot method {tag} on {args}", exp, {"case": wire[-1], "impl": exp}))
 
+    # ---- histories: sequences of calls in one process on live objects (harness/c09_hist.py).  Every session runs in
+    # a process forked from the pristine snapshot, so its findings are self-contained scripts; they are looked for first
+    # because a single case of the stream below that fails only through what earlier cases left behind in this process
+    # could not be replayed on its own
+    c09_hist.run(ck, hist_runner, labels, wire, checks, wire_events, canon_out, empty)
+    hist_runner.close()
+
     # ---- the two transforms
     n_rand = 2500 if ck.tier == "quick" else 100000
     cases = itertools.chain(gen_grid(ck.rng, ck.tier), gen_random(ck.rng, n_rand), gen_large(ck.rng))
@@ -611,10 +618,6 @@ def main(argv=None):
                                   common.REPO, common.VERIF,
                                   json.dumps([small[0], [list(x) for x in small[1]], [list(x) for x in small[2]]]
                                              + list(small[3:])))})
-
-    # ---- histories: sequences of calls in one process on live objects (harness/c09_hist.py)
-    c09_hist.run(ck, hist_runner, labels, wire, checks, wire_events, canon_out, empty)
-    hist_runner.close()
 
     if have_driver:
         model = common.run_driver("C09", wire)
